@@ -270,6 +270,14 @@ pub fn svg(sink: &mut Sink, seed: u64, thorough: bool) {
         let id = sink.id();
         sink.emit(&svg_event(id, &format!("svgsyn:{kind}"), &synthetic(v, kind, seed), &[Call::Margin(kind), Call::Shape(kind % 6), Call::ShapeColor((kind + 2) % 6, COLORS[2].to_vec())]));
     } }
+    // many layers, the same shape more than once
+    {
+        let many: Vec<Call> = (0..11).map(|i| if i % 3 == 0 { Call::ShapeColor(i % 6, COLORS[i % 4].to_vec()) } else { Call::Shape((i * 5) % 6) }).collect();
+        let id = sink.id();
+        sink.emit(&svg_event(id, "svgmany", &small[0], &many));
+        let id = sink.id();
+        sink.emit(&svg_event(id, "svgmany", &small[1], &[Call::Shape(2), Call::Shape(2), Call::ShapeColor(2, COLORS[2].to_vec()), Call::Shape(2), Call::Margin(3), Call::Shape(0), Call::Shape(0)]));
+    }
     // large versions with large margins: coordinates with three digits
     for (v, m) in [(40usize, 30usize), (33, 100), (21, 55)] {
         let id = sink.id();
@@ -430,11 +438,14 @@ pub fn raster(sink: &mut Sink, seed: u64, thorough: bool) {
             for (mi, &m) in [0usize, 4].iter().enumerate() {
                 let cells = (qr.size + 2 * m) as u32;
                 // fit modes: original, 4x, 7x, ~4.5x, width only, height only, both unequal
-                let fits: Vec<(Option<u32>, Option<u32>)> = vec![(None, None), (Some(4 * cells), None), (None, Some(7 * cells)), (Some(cells * 9 / 2 + 1), None), (Some(5 * cells), Some(6 * cells)), (Some(6 * cells + 3), Some(5 * cells))];
+                let mut fits: Vec<(Option<u32>, Option<u32>)> = vec![(None, None), (Some(4 * cells), None), (None, Some(7 * cells)), (Some(cells * 9 / 2 + 1), None), (Some(5 * cells), Some(6 * cells)), (Some(6 * cells + 3), Some(5 * cells))];
+                // the square shape is claimed pixel-exact at EVERY integer scale: 2x and 3x too (other shapes are only claimed from 4 px per module)
+                if s == 0 { fits.push((Some(2 * cells), None)); fits.push((None, Some(3 * cells))); fits.push((Some(11 * cells), None)); }
                 for (fi, &(fw, fh)) in fits.iter().enumerate() {
                     i += 1;
                     // keep the quick tier small: rotate fit modes over (version, shape, margin) cells
-                    if !thorough && (v + s + mi + fi) % 3 != 0 { continue; }
+                    if !thorough && fi < 6 && (v + s + mi + fi) % 3 != 0 { continue; }
+                    if !thorough && fi >= 6 && (v + mi + fi) % 2 != 0 { continue; }
                     if v >= 27 && fi >= 1 && (v + s + fi) % 2 == 0 { continue; }
                     let (fg, bg) = pairs[(i + s) % 4];
                     let mut p = vec![Call::Margin(m), Call::Shape(s), Call::ModuleColor(fg.to_vec()), Call::BackgroundColor(bg.to_vec())];
@@ -512,6 +523,9 @@ pub fn sessions(sink: &mut Sink, seed: u64, thorough: bool, alphabet: &str, beha
             plans.push(vec![(vec![a.clone()], 0), (vec![b.clone()], 0)]);                 // a, render, b, render (same code)
         }
     } }
+    for k in 0..(if thorough { 12 } else { 3 }) {
+        plans.push((0..9).map(|i| (if (i + k) % 3 == 0 { vec![alpha[(i * 7 + k) % alpha.len()].clone()] } else { vec![] }, i % 3)).collect());     // nine renderings of one builder
+    }
     for _ in 0..(if thorough { 600 } else { 120 }) {
         let segs = r.gen_range(2..5);
         plans.push((0..segs).map(|_| ((0..r.gen_range(0..3)).map(|_| alpha[r.gen_range(0..alpha.len())].clone()).collect(), r.gen_range(0..3))).collect());
